@@ -707,6 +707,15 @@ class Gen:
             return out
         if c == "detach" and others:
             return [f"fdetach {r.choice(others)}"]
+        if c == "pendthen" and fut and ws:
+            # a leaf future that blocks in a synchronous operation in the middle of its poll, waker already published
+            w = r.choice(ws)
+            self.pends.append((k, w))
+            chans = self.names(objs, "chan")
+            # (not `yield`: it wakes its own task, so the poll loop would spin for ever; `park` inside a poll leaves a
+            # future task blocked where only an `unpark` / a spurious wake-up resumes it)
+            inner = r.choice(["park"] + ([f"recv {chans[0]}", f"recv {chans[0]}", f"try_recv {chans[0]}"] if chans else []))
+            return [f"pend_then {w} {inner}"]
         if c == "fpoll" and futs:
             # poll a JoinHandle once without awaiting it (the handle stays usable by any task when Pending)
             return [f"fpoll {r.choice(others if others and not r.chance(1, 10) else futs)}"]
@@ -895,10 +904,10 @@ PROFILES = {
                 "min_tasks": 1, "extra_tasks": 2, "min_ops": 2, "extra_ops": 5},
     # ---- async layer (C17): `program_async`
     "async": {"async": True, "objs": {"atomic": (1, 1), "mutex": (0, 1), "wslot": (1, 2), "tls": (0, 1)},
-              "aweights": {"await": 8, "wake": 3, "atomic": 3, "lock": 1, "lockawait": 2, "yield": 1, "rand": 1, "isfin": 1, "fpoll": 2, "tls": 1, "park": 1, "unpark": 1},
+              "aweights": {"await": 8, "wake": 3, "atomic": 3, "lock": 1, "lockawait": 2, "yield": 1, "rand": 1, "isfin": 1, "fpoll": 2, "pendthen": 2, "tls": 1, "park": 1, "unpark": 1},
               "min_tasks": 1, "extra_tasks": 2, "min_ops": 1, "extra_ops": 3},
     "async_abort": {"async": True, "objs": {"atomic": (1, 1), "mutex": (0, 1), "wslot": (1, 2), "tls": (0, 1), "chan": (0, 1)},
-                    "aweights": {"await": 6, "wake": 2, "abort": 6, "detach": 2, "isfin": 2, "fpoll": 3, "atomic": 2, "lockawait": 3, "yield": 1, "tls": 1, "send": 2, "recv": 2},
+                    "aweights": {"await": 6, "wake": 2, "abort": 6, "detach": 2, "isfin": 2, "fpoll": 3, "pendthen": 3, "atomic": 2, "lockawait": 3, "yield": 1, "tls": 1, "send": 2, "recv": 2},
                     "joins": 8, "min_tasks": 1, "extra_tasks": 2, "min_ops": 1, "extra_ops": 3},
     "async_sem": {"async": True, "asem": True, "objs": {"atomic": (0, 1), "sem": (1, 2), "wslot": (0, 1)},
                   "aweights": {"asem": 10, "sem": 2, "await": 2, "wake": 1, "abort": 2, "atomic": 1, "yield": 1},
